@@ -11,4 +11,13 @@ JConcurrent(e) ==
      R("C18", "receiver_fields_not_mutated", r.parsed /\ "deep_control" \in DOMAIN r /\ r.deep_control, r.deep_unchanged, cls),
      R("C18", "package_tables_not_mutated", r.parsed, r.tables_unchanged, cls),
      R("C18", "serialiser_slices_have_no_spare_capacity", r.parsed /\ Len(r.caps) = 6, r.caps_tight, cls) >>
+
+\* ConcurrentVerify: distinct values (one genuine, one tampered, same length) verified at the same time
+JConcurrentVerify(e) ==
+  LET cls == e.fn \o "/distinct/" \o (IF "cls" \in DOMAIN e THEN e.cls ELSE "-")  r == e.r IN
+  << R("C05", "probe_set_up", TRUE, r.setup, cls),
+     R("C05", "verification_success_implies_authentic", r.setup /\ r.tampered_parses, r.false_accepts = 0 /\ ~r.seq_tampered, cls),
+     R("C18", "shared_value_obtained", TRUE, r.setup, cls),
+     R("C18", "concurrent_results_equal_sequential", r.setup /\ r.tampered_parses, r.false_accepts = 0 /\ r.false_rejects = 0 /\ r.panics = 0 /\ r.seq_genuine, cls),
+     R("C18", "no_data_race_reported", r.setup /\ r.tampered_parses, ~r.race, cls) >>
 =============================================================================
